@@ -347,6 +347,8 @@ class Unit:
                 nth_ = next((int(a[4:]) for a in d.arg.split() if a.startswith('nth=')), None)
                 item = X.slice_item(item, d.text(), d.with_text(self.templates), d.line, log, ([a for a in d.arg.split() if not a.startswith('nth=')] or ['R15'])[0], extra_caps, nth=nth_)
         kind = blk.path.split(' :: ')[-1].split()[0]
+        if any(d.kind == 'slice' for d in blk.dirs):
+            kind = 'fn'  # a slice replaces the item (fn, macro_rules, ...) by the instantiated function
         contracted = False
         if kind == 'fn':
             item, contracted = self._splice_fn(blk, item, out, info, novac)
